@@ -113,13 +113,25 @@ def divisor_of(f, t):
     return None
 
 
+def _canonical_guard(g):
+    """one spelling for one fact: `x.is_zero()` false and `*x.numer() == 0` false (or `!= 0` true) all say that the ratio x is not zero"""
+    m = re.fullmatch(r"<num::rational::Ratio<T> as num::Zero>::is_zero\((.*)\)=(T|F)", g)
+    if m:
+        return "ratio-zero=%s" % m.group(2)
+    m = re.fullmatch(r"\((Eq|Ne) \*?num::rational::Ratio::<T>::numer\((.*)\) c:0\)=(T|F)", g)
+    if m:
+        zero = (m.group(3) == "T") == (m.group(1) == "Eq")
+        return "ratio-zero=%s" % ("T" if zero else "F")
+    return g
+
+
 def site_key(s, ordinal):
     f = s.fn
     opshapes = [shape(f, o, 2) for o in s.ops[:3]]
     rts = set()
     for o in s.ops[:3]:
         rts |= roots(f, o)
-    gs = guard_shapes(f, s.bb, rts, 1)
+    gs = sorted({_canonical_guard(g) for g in guard_shapes(f, s.bb, rts, 1)})
     s.shape = "%s[%s]" % (s.what, ";".join(opshapes))
     s.guards = gs
     base = "R06a|%s|%s|%s" % (f.short, s.shape, ",".join(gs))
